@@ -29,7 +29,7 @@ BUDGET = {
     "quick": {"cases": 8400, "seconds": 90, "shards": 8},
     "thorough": {"cases": 300000, "seconds": 900, "shards": 16},
 }
-REQUIRED_OBS = ["layout:fortran", "layout:column-slice", "learn_with_precomputed_matrix", "big_validation_case", "predict_after_learn_checked", "relevance_checked", "learn_conservation_checked", "learn_best_model_checked", "learn_swaps_executed", "learn_best_not_last",
+REQUIRED_OBS = ["int64_beyond_2^53_cases", "deep_path_case", "layout:fortran", "layout:column-slice", "learn_with_precomputed_matrix", "big_validation_case", "predict_after_learn_checked", "relevance_checked", "learn_conservation_checked", "learn_best_model_checked", "learn_swaps_executed", "learn_best_not_last",
                 "prune_refit_checked", "prune_discarded", "first_in_order_conqueror"]
 MIN_NONTRIVIAL = 100
 NIL = -1
@@ -64,7 +64,10 @@ def generate(rng, tier, idx):
     case = {"part": part, "metric": name, "X": X.tolist(), "Y": [int(v) for v in Y], "V": V.tolist(), "YV": [int(v) for v in YV],
             "iters": int(rng.integers(0 if part == "prune" else 1, 11)), "rng_seed": int(rng.integers(0, 2 ** 31 - 1)),
             "layout": str(rng.choice(["c", "c", "fortran", "column-slice", "row-stride"])), "pre": None}
-    if part == "learn" and rng.random() < 0.15:
+    if part == "learn" and rng.random() < 0.06:
+        Z = np.round(A * 3).astype(np.int64) + 2 ** 60 + rng.integers(0, 7, size=A.shape)
+        case.update({"X": Z[:n].tolist(), "V": Z[n:].tolist(), "int64": True, "metric": gen.pick(rng, ["euclidean", "manhattan", "squared_euclidean", "chebyshev"])})
+    elif part == "learn" and rng.random() < 0.15:
         N = max(n, nv)
         case["pre"] = {"D": gen.make_matrix(rng, N, gen.pick(rng, ["M1", "M2"])).tolist()}      # learn through a pre-computed matrix
     return case
@@ -160,17 +163,24 @@ def _relevance(case, res):
 
 
 # ------------------------------------------------------------------------------------------- learn
+def _exact(r):
+    r = np.asarray(r)
+    return np.ascontiguousarray(r if r.dtype.kind in "iu" else r.astype(float)).tobytes().hex()
+
+
 def _multiset(X, Y):
-    return sorted((np.asarray(r, dtype=float).tobytes().hex(), int(y)) for r, y in zip(X, Y))
+    return sorted((_exact(r), int(y)) for r, y in zip(X, Y))
 
 
 def _features_fp(m):
-    return [np.asarray(nd.features, dtype=float).tobytes().hex() for nd in m.subgraph.nodes]
+    return [_exact(nd.features) for nd in m.subgraph.nodes]
 
 
-def _laid_out(A, layout):
+def _laid_out(A, layout, big=False):
     """The caller's matrix in another memory layout (same values): Fortran order, a column slice of a wider table, every other row."""
-    A = np.array(A, dtype=float)
+    A = np.array(A, dtype=np.int64 if big else float)
+    if big:
+        return np.asfortranarray(A) if layout == "fortran" else A       # 64-bit integer identifiers/counters beyond 2**53: no float holds them
     if layout == "fortran":
         return np.asfortranarray(A)
     if layout == "column-slice":
@@ -191,9 +201,12 @@ def _learn(case, res):
 
     import opfython.math.general as g
 
-    X, Y = _laid_out(case["X"], case.get("layout", "c")), np.array(case["Y"], dtype=int)
-    V, YV = _laid_out(case["V"], case.get("layout", "c")), np.array(case["YV"], dtype=int)
+    big = bool(case.get("int64"))
+    X, Y = _laid_out(case["X"], case.get("layout", "c"), big), np.array(case["Y"], dtype=int)
+    V, YV = _laid_out(case["V"], case.get("layout", "c"), big), np.array(case["YV"], dtype=int)
     res.see("layout:" + case.get("layout", "c"))
+    if big:
+        res.see("int64_beyond_2^53_cases")
     before = _multiset(np.vstack([X, V]), np.hstack([Y, YV]))
     train0 = _multiset(X, Y)
     if case.get("pre"):
@@ -259,14 +272,14 @@ def _learn(case, res):
         res.nontrivial = swapped and len(iters) >= 2
         res.cell("learn", "pre", "swapped" if swapped else "noswap")
         return res
-    Qv = np.array(V, dtype=float)
+    Qv = np.array(V) if big else np.array(V, dtype=float)
     pc = safe_call(m.predict, Qv.copy())
     if not pc.ok:
         res.violate("best-model", f"C17/learn/predict-after-learn-raises/{type(pc.exc).__name__}", f"predict on the object left by learn raised at {pc.where}")
         return res
     nodes = m.subgraph.nodes
     fn = m.distance_fn
-    R = np.array([[float(fn(np.array(nd.features, dtype=float), Qv[x].copy())) for x in range(len(Qv))] for nd in nodes])
+    R = np.array([[float(fn(np.array(nd.features) if big else np.array(nd.features, dtype=float), Qv[x].copy())) for x in range(len(Qv))] for nd in nodes])
     adm = admissible(m, R)
     res.see("predict_after_learn_checked")
     for x, a in enumerate(adm):
@@ -357,8 +370,26 @@ def _prune(case, res):
 def extra(tier, seed, shard=0, nshards=1):
     """One designed learn run with a LARGE validation set (6000 rows, one of them misclassified at first): successive accuracies
     (6000 per class) differ by 8.3e-5 < 1e-4, so 'better' must be decided exactly, not up to a convergence tolerance."""
-    if shard != 0:
+    if shard == 1 or (nshards == 1 and shard == 0):
+        # One designed relevance run whose optimum path is ~1100 samples deep (one class on a line, gaps growing away from the
+        # prototype, so there are no ties): the conqueror is the far end and EVERY sample of the chain is an ancestor.
+        N = 1100
+        gaps = 1.0 + (N - np.arange(N)) * 1e-3
+        xs = np.concatenate([[0.0], np.cumsum(gaps)])                         # N+1 positions; the last 3 + 2 more belong to class 1
+        xs = np.concatenate([xs, xs[-1] + np.array([0.9, 1.7])])
+        Yc = [0] * (N - 2) + [1] * 5
+        chain = {"part": "relevance", "model": "supervised", "metric": "euclidean", "gclass": "deep-chain", "X": [[float(v)] for v in xs], "Y": Yc,
+                 "Q": [[float(xs[0] - 0.4)], [float(xs[-1] + 0.2)]], "pre": None}
+        r = check(chain)
+        if not r.violations and not r.rejected:
+            r.see("deep_path_case")
+        out = [({"deep_chain": {"n": len(xs), "expected_depth": N - 3}}, r)] if not r.violations else [(chain, r)]
+        if shard != 0:
+            return out
+    elif shard != 0:
         return []
+    else:
+        out = []
     rng = np.random.default_rng([seed, 1717])
     a = rng.normal(size=(4, 2)) * 0.3
     b = rng.normal(size=(4, 2)) * 0.3 + 8.0
@@ -372,4 +403,4 @@ def extra(tier, seed, shard=0, nshards=1):
             "rng_seed": int(seed) % (2 ** 31 - 1), "layout": "c", "pre": None}
     r = check(case)
     r.see("big_validation_case")
-    return [(case, r)]
+    return out + [(case, r)]
